@@ -70,7 +70,7 @@ CHECKS['C03'] = {
     'unproved': ['evaluate arms FunctionCall (all functions), TypeConversion, Aggregate', 'parser_tree_converter lowering, projection naming'],
 }
 CHECKS['C09'] = {
-    'verus_units': ['eval', 'follow', 'select', 'engine', 'extract', 'parser', 'executor'],
+    'verus_units': ['eval', 'follow', 'select', 'engine', 'extract', 'parser', 'executor', 'aggregate'],
     'only_safety': True,
     'clause_prefixes': ['c09'],
     'technique': 'contract-based deductive verification (Verus): absence of arithmetic overflow, division by zero, failed callee preconditions (unwrap, indexing, unreachable!) in every extracted function',
@@ -203,6 +203,29 @@ CHECKS['C19'] = {
     'explanation': 'Rides on the executor unit; lemma_interrupted_run_consumes_nothing.',
     'trusted': COMMON_TRUST + ['flag constant during one call'],
     'unproved': ['interleavings of the ctrl-c handler with the loop', 'JoinedTableData::execute', 'FollowFileExecutor::execute'],
+}
+
+CHECKS['C04'] = {
+    'verus_units': ['aggregate'],
+    'clause_prefixes': ['c04', 'value.modify', 'value.map-numeric', 'value.default'],
+    'technique': 'contract-based deductive verification (Verus): GroupAggregator::default / update (all arms) / is_null, ensure_sum_fits and Value::modify_same_type_numeric_nullable / map_numeric extracted from /repo against step functions written from the property text',
+    'claim': 'Proof (fold kernel only) for all states and values that one update step of each running aggregate is exactly the documented step: SUM / AVG / STDDEV-VARIANCE bookkeeping add the value exactly or report an error (never wrap), the first value only initialises, AVG shows sum/count, PERCENTILE collects every value, BOOL_AND / BOOL_OR combine two-valued, COUNT(DISTINCT) counts a value only at its first occurrence; the unimplemented!() arms of default are unreachable under its precondition. NOT decided: the assembly of the result table (update_aggregates dispatch per group key, execute_result, extract_result_rows_by_column, accept_group) - "one row per group, no cell in another group\'s row", HAVING and the PERCENTILE index are outside the claim.',
+    'note': 'Trusted: HashSet<Value> as a set under Value equality (VValueSet), f64 arithmetic and chrono Duration arithmetic as uninterpreted functions, the variance formula closure and the INTERVAL squaring closure are stubbed (assumed). Defects seen by reading only in the unreached code (column shift when an aggregate has no entry for a group, DISTINCT only under HAVING, PERCENTILE(1.0)) are recorded in DESIGN.md, not raised by this check.',
+    'level': 'proof',
+    'explanation': 'sum_step etc. are the semantic steps; C15 lemmas lift them to order-insensitivity.',
+    'trusted': COMMON_TRUST + ['std HashSet<Value> / BTreeMap / HashMap behaviour', 'float and interval arithmetic uninterpreted'],
+    'unproved': ['AggregateExecutionEngine::update_aggregates / update_aggregate (per-group dispatch)', 'execute_result, extract_result_rows_by_column, accept_group', 'GroupAggregator::update_value (PERCENTILE index, sort)'],
+}
+CHECKS['C15'] = {
+    'verus_units': ['aggregate'],
+    'clause_prefixes': ['c15'],
+    'technique': 'contract-based deductive verification (Verus): lemmas (induction, multiset permutation) over the step functions that the extracted GroupAggregator::update arms are proved to implement',
+    'claim': 'Proof that an INT SUM that succeeds equals the mathematical sum of the values and that the mathematical sum is invariant under every permutation (multiset equality) and additive over concatenation; BOOL_AND over a concatenation is the conjunction of the parts; the MIN fold returns a lower bound of all values in any order (given the order laws of C16 as hypotheses), COUNT(DISTINCT) and PERCENTILE collect sets/multisets; the aggregator start value does not privilege the first value. Linked to the real code through the per-arm step contracts (C04). Float sums are excluded as in the property; PERCENTILE\'s sort+index and the union of group sets (table assembly) are not covered.',
+    'note': 'Trusted: as C04. Order-dependence through overflow of partial sums is handled as in the code: a run either reports an error or shows the exact sum.',
+    'level': 'proof',
+    'explanation': 'lemma_math_sum_permutation is a full permutation-invariance proof over multisets; the other aggregates are shown commutative/associative at the step level.',
+    'trusted': COMMON_TRUST + ['value_cmp total-preorder laws enter as hypotheses (established for scalars by C16)'],
+    'unproved': ['PERCENTILE', 'group-set union across inputs (table assembly)'],
 }
 
 NOT_APPLICABLE = {
